@@ -778,6 +778,13 @@ func (f *ordFn) bodyProblems(body *ast.BlockStmt, key, val types.Object) []strin
 							continue
 						}
 					}
+					// a key computed from the loop variable through a function that is not injective (case folding,
+					// name mangling, trimming, base names): two elements can land on one key, and which one stays is
+					// decided by the iteration order
+					if fn := f.nonInjectiveIn(lx.Index, body, key, val); fn != "" {
+						out = append(out, "the store "+exprStr(l)+" at "+c.P.Pos(x.Pos())+" keys the element by "+fn+"(…) of the loop variable, which is not injective: colliding elements overwrite each other in iteration order (last writer wins)")
+						continue
+					}
 					// keyed store: fine unless the same map is also looked up with another key
 					ko := core.ObjOf(f.info, lx.Index)
 					keyIsLoopVar := ko != nil && (ko == key || ko == val)
@@ -1402,4 +1409,63 @@ func (e *ordEngine) paramOnlyRanged(cf *core.FuncInfo, idx int, depth int) bool 
 		return true
 	})
 	return ok
+}
+
+// nonInjective: library functions that map distinct strings to one.
+var nonInjective = map[string]bool{
+	"strings.ToLower": true, "strings.ToUpper": true, "strings.Title": true, "strings.TrimSpace": true, "strings.Trim": true,
+	"strings.TrimPrefix": true, "strings.TrimSuffix": true, "strings.TrimLeft": true, "strings.TrimRight": true,
+	"path.Base": true, "path.Dir": true, "path/filepath.Base": true, "path/filepath.Dir": true,
+	"github.com/go-openapi/swag.ToGoName": true, "github.com/go-openapi/swag.ToJSONName": true, "github.com/go-openapi/swag.ToFileName": true,
+	"github.com/go-openapi/swag.ToVarName": true, "github.com/go-openapi/swag.ToHumanNameLower": true, "github.com/go-openapi/swag.ToCommandName": true,
+}
+
+// nonInjectiveIn: the key expression applies a non-injective function to something rooted in the loop variables.
+func (f *ordFn) nonInjectiveIn(keyExpr ast.Expr, body *ast.BlockStmt, key, val types.Object) string {
+	found := ""
+	seen := map[types.Object]bool{}
+	var visit func(e ast.Expr, depth int)
+	visit = func(e ast.Expr, depth int) {
+		if e == nil || depth > 3 || found != "" {
+			return
+		}
+		ast.Inspect(e, func(n ast.Node) bool {
+			switch x := n.(type) {
+			case *ast.CallExpr:
+				if cal := f.e.c.P.CalleeAny(f.fi, x); cal != nil && nonInjective[cal.FullName()] {
+					for _, a := range x.Args {
+						if f.rootedInLoop(a, body, key, val) || f.mentionsLoopVar(a, key, val) {
+							found = cal.Name()
+						}
+					}
+				}
+			case *ast.Ident:
+				// a local of the body defined from such a call
+				if o, ok := f.info.Uses[x].(*types.Var); ok && !seen[o] && f.declaredIn(o, body) {
+					seen[o] = true
+					for _, d := range f.e.c.P.Locals(f.fi).Defs[o] {
+						if d.Expr != nil {
+							visit(d.Expr, depth+1)
+						}
+					}
+				}
+			}
+			return found == ""
+		})
+	}
+	visit(keyExpr, 0)
+	return found
+}
+
+func (f *ordFn) mentionsLoopVar(e ast.Expr, key, val types.Object) bool {
+	hit := false
+	ast.Inspect(e, func(n ast.Node) bool {
+		if id, ok := n.(*ast.Ident); ok {
+			if o := f.info.Uses[id]; o != nil && (o == key || o == val) {
+				hit = true
+			}
+		}
+		return !hit
+	})
+	return hit
 }
